@@ -25,7 +25,7 @@ for p in props:
     else:
         na.append({"property_id": pid, "reason": NOT_CLAIMED.get(pid, "check not built yet in this session; not claimed")})
 m={"version":1,
- "setup_cmd":"cd /verif && export GOFLAGS=-mod=mod GOPROXY=off && mkdir -p bin/setup && go build -tags verif -o bin/setup/verif.plain ./cmd/verif && go build -tags verif -race -o bin/setup/verif.race ./cmd/verif && go build -tags 'verif coraza.no_memoize' -o bin/setup/verif.nomemo ./cmd/verif",
+ "setup_cmd":"cd /verif && export GOFLAGS=-mod=mod GOPROXY=off && mkdir -p bin/setup && go build -tags verif -o bin/setup/verif.plain ./cmd/verif && go build -tags verif -race -o bin/setup/verif.race ./cmd/verif && go build -tags 'verif coraza.no_memoize' -o bin/setup/verif.nomemo ./cmd/verif && go build -tags 'verif coraza.rule.case_sensitive_args_keys' -o bin/setup/verif.csargs ./cmd/verif && go build -tags 'verif coraza.rule.no_regex_multiline' -o bin/setup/verif.nomline ./cmd/verif",
  "hooks":{"guard":"verif","enable":"go build -tags verif (every ./check invocation rebuilds cmd/verif against /repo's working tree through the replace directive in /verif/go.mod)",
    "baseline_off_cmd":"cd /repo && export GOPROXY=off && for m in . examples/http-server testing/coreruleset; do (cd $m && go test -vet=off -count=1 -timeout 25m ./...); done",
    "source_commits":hooks,"add_only":True},
